@@ -26,6 +26,7 @@ pub const K_UNSAFE: &str = "path_unsafe_name";
 pub const K_KIND: &str = "kind_confusion";
 pub const K_PAGING: &str = "manifest_listing_ignores_paging";
 pub const K_DUP: &str = "dual_listing_duplicate_name";
+pub const K_EMPTYLOC: &str = "register_empty_location";
 
 /// class of the names of an operation, if any
 pub fn name_class(op: &Op) -> Option<&'static str> {
@@ -113,6 +114,11 @@ impl Reference {
             Op::CreateNs(i) | Op::RegisterTable(i, _) => level_is_table(i),
             _ => false,
         }
+    }
+
+    /// register_table with an empty location (a later drop_table removes the catalog directory)
+    pub fn register_empty(&self, op: &Op) -> bool {
+        matches!(op, Op::RegisterTable(_, loc) if loc.is_empty()) && self.mode != Mode::Dir
     }
 
     /// dual mode: register_table of a root name whose directory exists, at another location
